@@ -58,10 +58,16 @@ func C11(c *core.Ctx) {
 	nSites := 0
 	rs := p.Func("fw/face", "", "readTlvStream")
 	for _, fn := range p.FuncsIn(core.ModPath + "/fw/face") {
-		if strings.HasSuffix(p.File(fn.Pos()), "_test.go") {
+		if strings.HasSuffix(p.File(fn.Pos()), "_test.go") || rs == nil {
 			continue
 		}
-		for _, ci := range core.FindCalls(fn, core.CalleeID{Pkg: "fw/face", Name: "readTlvStream"}) {
+		var sites []ssa.CallInstruction
+		for _, ci := range p.Callers(rs) {
+			if ci.Parent() == fn {
+				sites = append(sites, ci)
+			}
+		}
+		for _, ci := range sites {
 			nSites++
 			_, a := core.CallArgs(ci.Common())
 			// the callback: a function literal, a method value (bound-method wrapper) or a
